@@ -62,6 +62,9 @@ Take == /\ raised = 0 /\ cons < sub /\ (cons + 1) \in fin
 
 Next == Submit \/ Take \/ \E i \in 1..MaxConst : Start(i) \/ Finish(i)
 
+vars == <<sub, run, fin, cons, raised, fail, e2w>>
+Spec == Init /\ [][Next]_vars
+
 IndInv == /\ sub \in 0..N /\ cons \in 0..sub /\ raised \in 0..sub
           /\ run \subseteq 1..sub /\ fin \subseteq 1..sub /\ run \cap fin = {}
           /\ fail \subseteq 1..MaxConst
